@@ -201,8 +201,8 @@ def check(prop, tier, run: Run, replay_case=None):
         _init()
         d = replay_case["detail"]
         if replay_case.get("leg") == "T":
-            from . import trace_table
-            return trace_table.replay(run, replay_case)
+            from . import trace_pipeline
+            return trace_pipeline.replay(run, replay_case)
         out, _ = replay((replay_case["case"], d["emb"], d.get("near", False)))
         for clause, dd in out:
             run.violation(clause, replay_case["case"], dd)
@@ -242,7 +242,7 @@ def check(prop, tier, run: Run, replay_case=None):
     run.cov["distinct_nontrivial"] = len(nontriv)
     run.cov["rule"] = ("every table of 2..MaxRows rows x every request sequence (unsorted, duplicates) x every history of <= MaxCalls "
                        "calls, enumerated by TLC; non-trivial = the call added at least one row; distinct by (table before, request set)")
-    from . import trace_table
-    trace_table.leg_t(run, tier)
+    from . import trace_pipeline
+    trace_pipeline.leg_t(run, prop, tier)
     if tier == "thorough":
         mutant_selftest(run)
